@@ -559,6 +559,7 @@ func runC36(c *Ctx) {
 		rounds = 3000
 	}
 	c36concurrent(c, rounds)
+	c36lifecycle(c, rounds)
 }
 
 // ---- concurrent share (direct oracle only) -------------------------------------------------
@@ -770,6 +771,242 @@ func c36concurrent(c *Ctx, rounds int) {
 			if a, ret := c36auth(api, g.user, g.pw); ret && !a {
 				c.Fail("authn:live-token-refused", tag+": genuine pair refused in the epilogue")
 			}
+		}
+	}
+}
+
+// Token lifecycle under concurrency: Create / Delete / Check (through Authenticate and directly on
+// the CredentialStore) interleaved; in the gated rounds a Check's DB read of token T is held open
+// while a Delete of T completes. Epilogue (sequential, after ageing the authn cache by > 5 min):
+// every deleted token is refused by the long-lived API and by a fresh API over the same store, and
+// the long-lived CredentialStore answers every Check like a NEW CredentialStore over the same DB.
+func c36lifecycle(c *Ctx, rounds int) {
+	const idChars = "abcdefghijklmnopqrstuvwxyz"
+	randID := func(n int) string {
+		b := make([]byte, n)
+		for i := range b {
+			b[i] = idChars[c.Rng.Intn(len(idChars))]
+		}
+		return string(b)
+	}
+	watch := func(f func(), d time.Duration) bool {
+		done := make(chan struct{})
+		go func() { f(); close(done) }()
+		select {
+		case <-done:
+			return true
+		case <-time.After(d):
+			return false
+		}
+	}
+	failures := 0
+	for r := 0; r < rounds && failures < 5; r++ {
+		gdb := &c36gatedDB{DB: dbm.NewMemDB(), gated: map[string]bool{}, entered: make(chan string, 64), release: make(chan struct{})}
+		store := accesstoken.NewStore(gdb)
+		api := authn.NewAPI(store, false)
+		type tokT struct {
+			id, secret string
+			deleted    bool
+		}
+		var toks []*tokT
+		var steps []string
+		used := map[string]bool{}
+		create := func() *tokT {
+			id := randID(3 + c.Rng.Intn(4))
+			for used[id] {
+				id = randID(3 + c.Rng.Intn(4))
+			}
+			used[id] = true
+			tok, err := store.Create(id, "client")
+			if err != nil {
+				panic(err)
+			}
+			t := &tokT{id: id, secret: strings.SplitN(tok.Token, ":", 2)[1]}
+			toks = append(toks, t)
+			return t
+		}
+		for i := 0; i < 2+c.Rng.Intn(3); i++ {
+			create()
+		}
+		tag := fmt.Sprintf("lifecycle round %d", r)
+		hang := func(what string) { c.Fail("call-does-not-return:"+what, tag+": "+strings.Join(steps, "; ")) }
+		hung := false
+		if r%2 == 0 {
+			// gated: hold the DB read of a Check of T open, delete T meanwhile
+			for _, t := range toks {
+				if c.Rng.Intn(3) == 0 {
+					continue // stays live
+				}
+				warm := c.Rng.Intn(4) == 0
+				if warm { // T was already checked once before (the usual case in a running node)
+					store.Check(t.id, t.secret)
+					steps = append(steps, fmt.Sprintf("Check(%s) (warm-up)", t.id))
+				}
+				gdb.mu.Lock()
+				gdb.gated[t.id] = true
+				gdb.mu.Unlock()
+				viaAPI := c.Rng.Intn(2) == 0
+				done := make(chan bool, 1)
+				go func(t *tokT) {
+					if viaAPI {
+						_, err := api.Authenticate(c36remote(t.id, t.secret))
+						done <- err == nil
+					} else {
+						done <- store.Check(t.id, t.secret) == nil
+					}
+				}(t)
+				inFlight := false
+				select {
+				case <-gdb.entered:
+					inFlight = true
+					steps = append(steps, fmt.Sprintf("Check(%s)%s has read the DB record and is held", t.id, map[bool]string{true: " via Authenticate", false: ""}[viaAPI]))
+				case ok := <-done: // served without touching the DB
+					steps = append(steps, fmt.Sprintf("Check(%s) answered %v without a DB read", t.id, ok))
+				case <-time.After(5 * time.Second):
+					hang("Check")
+					hung = true
+				}
+				if hung {
+					break
+				}
+				gdb.mu.Lock()
+				delete(gdb.gated, t.id)
+				gdb.mu.Unlock()
+				if !watch(func() { store.Delete(t.id) }, 5*time.Second) {
+					hang("Delete")
+					hung = true
+					break
+				}
+				t.deleted = true
+				steps = append(steps, fmt.Sprintf("Delete(%s) completes", t.id))
+				if inFlight {
+					gdb.release <- struct{}{}
+					select {
+					case ok := <-done:
+						steps = append(steps, fmt.Sprintf("Check(%s) resumes and answers %v", t.id, ok))
+					case <-time.After(5 * time.Second):
+						hang("Check")
+						hung = true
+					}
+				}
+				if hung {
+					break
+				}
+			}
+			c.Count("lifecycle/gated-rounds")
+		} else {
+			// free running against a slow store: checkers, deleters and creators at once
+			gdb.mu.Lock()
+			gdb.slow = true
+			gdb.mu.Unlock()
+			var wg sync.WaitGroup
+			var mu sync.Mutex
+			start := make(chan struct{})
+			for _, t := range toks {
+				t := t
+				del := c.Rng.Intn(3) != 0
+				delay := time.Duration(c.Rng.Intn(200)) * time.Microsecond
+				for k := 0; k < 2; k++ {
+					wg.Add(1)
+					viaAPI := k == 0
+					go func() {
+						defer wg.Done()
+						<-start
+						for j := 0; j < 6; j++ {
+							if viaAPI {
+								api.Authenticate(c36remote(t.id, t.secret))
+							} else {
+								store.Check(t.id, t.secret)
+							}
+						}
+					}()
+				}
+				if del {
+					wg.Add(1)
+					go func() {
+						defer wg.Done()
+						<-start
+						time.Sleep(delay)
+						store.Delete(t.id)
+						mu.Lock()
+						t.deleted = true
+						mu.Unlock()
+					}()
+				}
+			}
+			wg.Add(1)
+			go func() { defer wg.Done(); <-start; store.Create("zz"+randID(4), "client") }()
+			close(start)
+			if !watch(wg.Wait, 20*time.Second) {
+				hang("Create/Delete/Check (free running)")
+				hung = true
+			}
+			steps = append(steps, "per token: 6 Authenticate + 6 Check calls, a Delete after a random delay, one Create, all concurrent against a slow store")
+			gdb.mu.Lock()
+			gdb.slow = false
+			gdb.mu.Unlock()
+			c.Count("lifecycle/free-rounds")
+		}
+		if hung {
+			return
+		}
+		// sometimes the id is issued again: the old secret must stay dead, the new one must work
+		var recreated []*tokT
+		if c.Rng.Intn(3) == 0 {
+			for _, t := range toks {
+				if t.deleted {
+					tok, err := store.Create(t.id, "client")
+					if err != nil {
+						c.Fail("store:recreate-after-delete-refused", tag+": "+err.Error())
+						continue
+					}
+					recreated = append(recreated, &tokT{id: t.id, secret: strings.SplitN(tok.Token, ":", 2)[1]})
+					steps = append(steps, fmt.Sprintf("Create(%s) again", t.id))
+					break
+				}
+			}
+		}
+		// ---- epilogue
+		api.VerifAgeCache(301 * time.Second)
+		freshStore := accesstoken.NewStore(gdb) // the same DB, no history
+		freshAPI := authn.NewAPI(store, false)   // a fresh authenticator over the LONG-LIVED store
+		bad := false
+		for _, t := range toks {
+			want := !t.deleted
+			gotLong := store.Check(t.id, t.secret) == nil
+			gotFresh := freshStore.Check(t.id, t.secret) == nil
+			a1, ret1 := c36auth(api, t.id, t.secret)
+			a2, ret2 := c36auth(freshAPI, t.id, t.secret)
+			if !ret1 || !ret2 {
+				hang("Authenticate (epilogue)")
+				return
+			}
+			switch {
+			case t.deleted && (a1 || a2):
+				c.Count("oracle/deleted-token-admitted")
+				c.Fail("authn:deleted-token-admitted", fmt.Sprintf("%s: token %q was deleted, the authn cache is older than 5 minutes, yet a non-loopback request with its credentials is admitted (long-lived API: %v, fresh API over the same store: %v; store.Check=%v, new store over the same DB=%v). Schedule: %s", tag, t.id, a1, a2, gotLong, gotFresh, strings.Join(steps, "; ")))
+				bad = true
+			case gotLong != gotFresh:
+				c.Fail("store:long-lived-differs-from-fresh", fmt.Sprintf("%s: Check(%q) = %v on the long-lived CredentialStore, %v on a new CredentialStore over the same DB. Schedule: %s", tag, t.id, gotLong, gotFresh, strings.Join(steps, "; ")))
+				bad = true
+			case gotFresh != want && len(recreated) == 0:
+				c.Fail("store:check-disagrees-with-history", fmt.Sprintf("%s: Check(%q) = %v, token deleted = %v", tag, t.id, gotFresh, t.deleted))
+				bad = true
+			case !t.deleted && (!a1 || !a2):
+				c.Fail("authn:live-token-refused", fmt.Sprintf("%s: live token %q refused in the epilogue", tag, t.id))
+				bad = true
+			}
+		}
+		for _, t := range recreated {
+			gotLong := store.Check(t.id, t.secret) == nil
+			gotFresh := freshStore.Check(t.id, t.secret) == nil
+			if gotLong != gotFresh || !gotFresh {
+				c.Fail("store:long-lived-differs-from-fresh", fmt.Sprintf("%s: re-issued token %q: Check = %v on the long-lived store, %v on a new store. Schedule: %s", tag, t.id, gotLong, gotFresh, strings.Join(steps, "; ")))
+				bad = true
+			}
+		}
+		if bad {
+			failures++
 		}
 	}
 }
